@@ -156,6 +156,9 @@ Section View.
     pi_bms : forall name t, In (name, t) (v_bms (s_v st)) ->
                Nat.odd (length t) = true /\ forall c, In c (added_ids t) -> c < n0 -> In c Scope;
     pi_wcs : forall ws c, In (ws, c) (v_wcs (s_v st)) -> c < n0 -> In c Scope;
+    pi_ident : forall y, n1 <= y < length (s_g st) ->
+      let c := getc (s_g st) y in
+      c_preds c = [] /\ c_change c = N.of_nat y /\ c_desc c = 0%N /\ c_empty c = true;
   }.
 
   Lemma PI_init : PI s1.
@@ -170,6 +173,7 @@ Section View.
     - intros name t Hb. rewrite (li_bms _ _ _ _ HLI) in Hb. split; [eapply bms_odd; eassumption|].
       intros c Hc _. eapply bm_in_scope; eassumption.
     - intros ws c Hw _. rewrite (li_wcs _ _ _ _ HLI) in Hw. eapply wc_in_scope; eassumption.
+    - intros y Hy. unfold n1 in Hy. lia.
   Qed.
 
   Lemma PI_set_bookmark st name t : PI st -> Nat.odd (length t) = true ->
@@ -274,6 +278,9 @@ Section View.
       pose proof (li_len _ _ _ _ HLI). fold n0 in H. unfold n1 in Ln. lia.
     - rewrite Bw. apply (pi_bms _ P).
     - rewrite Ww. apply (pi_wcs _ P).
+    - intros y Hy. rewrite Lw in Hy. rewrite Gw. destruct (Nat.eq_dec y (length (s_g st))) as [->|Ny].
+      + rewrite getc_app_new. cbn [c fresh_commit c_preds c_change c_desc c_empty]. auto.
+      + rewrite getc_app_old by lia. apply (pi_ident _ P). lia.
   Qed.
 
   Lemma PI_normalize st : PI st -> PI (normalize st).
@@ -329,6 +336,7 @@ Section View.
     - intros ws' c' Hw Lc. apply (aset_In N.eqb N.ltb) in Hw. destruct Hw as [E|Hw].
       + injection E as -> ->. auto.
       + rewrite Wc in Hw. now apply (pi_wcs _ Pm ws').
+    - rewrite G. apply (pi_ident _ Pm).
   Qed.
 
   Lemma PI_update_wc_commits st mapping st' :
@@ -582,4 +590,47 @@ Proof.
   assert (PB : PI s0 o s1 sB) by (eapply PI_update_wc_commits; eassumption).
   rewrite update_heads_graph.
   eapply view_clean; eassumption.
+Qed.
+
+(** * Identity: what rebase_descendants adds to the graph *)
+Theorem identity_model s0 o ord s' :
+  J s0 ->
+  (forall k r t, In (k, r) (s_pm s0) -> In t (new_parent_ids r) -> In t (scope s0 (o_imm o))) ->
+  (forall name t, In (name, t) (v_bms (s_v s0)) -> Nat.odd (length t) = true) ->
+  (forall order, ord (s_g s0) (s_pm s0) (find_descendants_for_rebase s0 (o_imm o)) = Ok order ->
+     valid_from s0 o [] order /\ forall x, In x (find_descendants_for_rebase s0 (o_imm o)) -> In x order) ->
+  rebase_descendants_with ord s0 o = Ok s' ->
+  length (s_g s0) <= length (s_g s') /\
+  (forall i, i < length (s_g s0) -> getc (s_g s') i = getc (s_g s0) i) /\
+  forall y, length (s_g s0) <= y < length (s_g s') ->
+    let c := getc (s_g s') y in
+    (exists x, c_preds c = [x] /\ In x (find_descendants_for_rebase s0 (o_imm o)) /\
+               c_change c = c_change (getc (s_g s0) x) /\ c_desc c = c_desc (getc (s_g s0) x))
+    \/ (c_preds c = [] /\ c_change c = N.of_nat y /\ c_desc c = 0%N /\ c_empty c = true).
+Proof.
+  intros J0 Dom Odd Hord H.
+  unfold rebase_descendants_with in H.
+  destruct (rebase_loop_with ord s0 o) as [s1| | |] eqn:EL; cbn [bind] in H; try discriminate.
+  unfold rebase_loop_with in EL.
+  destruct (ord (s_g s0) (s_pm s0) (find_descendants_for_rebase s0 (o_imm o))) as [order| | |] eqn:EO;
+    cbn [bind] in EL; try discriminate.
+  destruct (Hord order eq_refl) as [V Tall].
+  destruct (loop_clean s0 o J0 Dom order s1 V Tall EL) as [HLI _].
+  destruct (update_rewritten_references s1 (o_delete_abandoned o)) as [s2| | |] eqn:EU; cbn [bind] in H; try discriminate.
+  apply Ok_inj in H. subst s'. cbn [set_pm s_g s_v].
+  unfold update_rewritten_references in EU.
+  destruct (resolve_rewrite_mapping (s_pm s1) (fun _ => true)) as [mapping| | |] eqn:EM; cbn [bind] in EU; try discriminate.
+  destruct (update_local_bookmarks s1 mapping (o_delete_abandoned o)) as [sA| | |] eqn:EA; cbn [bind] in EU; try discriminate.
+  destruct (update_wc_commits sA mapping) as [sB| | |] eqn:EB; cbn [bind] in EU; try discriminate.
+  apply Ok_inj in EU. subst s2.
+  assert (P1 : PI s0 o s1 s1) by (eapply PI_init; eassumption).
+  assert (PA : PI s0 o s1 sA) by (eapply PI_update_local_bookmarks; eassumption).
+  assert (PB : PI s0 o s1 sB) by (eapply PI_update_wc_commits; eassumption).
+  rewrite update_heads_graph.
+  pose proof (li_len _ _ _ _ HLI) as L0. pose proof (pi_len _ _ _ _ PB) as L1.
+  split; [lia|]. split.
+  - intros i Hi. rewrite (pi_old _ _ _ _ PB) by lia. now apply (li_old _ _ _ _ HLI).
+  - intros y Hy. cbv zeta. destruct (Nat.lt_ge_cases y (length (s_g s1))) as [Ly|Ly].
+    + left. rewrite (pi_old _ _ _ _ PB) by assumption. apply (li_ident _ _ _ _ HLI). lia.
+    + right. apply (pi_ident _ _ _ _ PB). lia.
 Qed.
